@@ -565,6 +565,9 @@ func newC13Space(p *core.Pkg) *c13Space {
 	add(core.Path{}, "root")
 	real := map[string]bool{}
 	for _, q := range nodePaths(p) {
+		if _, soft := softTarget.Load(p.Name + "|" + q.String()); soft {
+			continue // container removed by path compression: not addressable, a C12 target only
+		}
 		s := q.String()
 		real[s] = true
 		last := q[len(q)-1]
